@@ -8,7 +8,97 @@ import (
 	"github.com/gontainer/gontainer/internal/pkg/output"
 )
 
-func init() { vfRegister("VF_C06_pipeline", VF_C06_pipeline) }
+func init() {
+	vfRegister("VF_C06_pipeline", VF_C06_pipeline)
+	vfRegister("VF_C07_pipeline", VF_C07_pipeline)
+	vfRegister("VF_C06_registered", VF_C06_registered)
+}
+
+// VF_C06_registered: what the validators take for declared is declared at run
+// time: every parameter of an accepted configuration - whatever its value,
+// the falsy ones included - is registered in the generated constructor under
+// its name, exactly once, so that no reference to it can fail with "does not
+// exist".
+func VF_C06_registered() {
+	v := vfAny("v", 0)
+	if s, ok := v.(string); ok {
+		vfAssume(vfRuneLen(s) <= 3 && !strings.Contains(s, "%"))
+	}
+	ctor := "NewX"
+	in := input.Input{Params: map[string]any{"p": v, "q": "lit"}, Services: map[string]input.Service{"svc": {Constructor: &ctor, Args: []any{"%p%", "%q%"}}}}
+	em, _, ok := vfGenerate(in, false)
+	vfAssert(ok, "a configuration whose references are all declared is accepted")
+	if !ok {
+		return
+	}
+	np, nq, ns := 0, 0, 0
+	for _, c := range em.CtorCalls {
+		if c.Fn == "OverrideParam" && len(c.Args) == 2 {
+			if c.Args[0] == vfQuote("p") {
+				np++
+			}
+			if c.Args[0] == vfQuote("q") {
+				nq++
+			}
+		}
+	}
+	for _, b := range em.Blocks {
+		if b.Name == vfQuote("svc") {
+			ns++
+		}
+	}
+	vfAssert(np == 1 && nq == 1, "every declared parameter is registered exactly once, whatever its value")
+	vfAssert(ns == 1, "every declared service is registered exactly once")
+	vfReach("C06_registered")
+}
+
+// vfRefForm: "%x%" alone, after literal text, after %%, before literal text.
+func vfRefForm(tag, x string) string {
+	switch vfChoice(tag, 4) {
+	case 1:
+		return "http://%" + x + "%"
+	case 2:
+		return "%%%" + x + "%"
+	case 3:
+		return "%" + x + "%/suffix"
+	}
+	return "%" + x + "%"
+}
+
+// VF_C07_pipeline: from YAML-level parameters to the cycle verdict: parameter
+// a refers to b and b may refer back to a, each reference in any pattern
+// form: the configuration is rejected for a cycle iff both references exist,
+// and the report shows the cycle through both parameters.
+func VF_C07_pipeline() {
+	back := vfBool("back")
+	params := map[string]any{"a": vfRefForm("fa", "b"), "b": "lit"}
+	if back {
+		params["b"] = vfRefForm("fb", "a")
+	}
+	self := vfBool("self")
+	if self {
+		params["c"] = vfRefForm("fc", "c")
+	}
+	w := vfWire()
+	in := input.Input{Params: params}
+	c := New(NewStepValidateInput(input.NewDefaultValidator("")), w.meta, w.pstep, w.services, w.decs)
+	o, err := c.Compile(in)
+	vfAssert(err == nil, "the configuration compiles (cycles are checked afterwards)")
+	if err != nil {
+		return
+	}
+	cerr := output.ValidateCircularDeps(o)
+	vfAssert((cerr != nil) == (back || self), "rejected for circular dependencies iff the parameters refer to each other (or to themselves), whatever the pattern form")
+	if cerr != nil {
+		if back {
+			vfAssert(strings.Contains(cerr.Error(), "%a%") && strings.Contains(cerr.Error(), "%b%"), "the report shows the cycle through both parameters")
+		}
+		if self {
+			vfAssert(strings.Contains(cerr.Error(), "%c%"), "the report shows the self-reference")
+		}
+	}
+	vfReach("C07_pipeline")
+}
 
 // VF_C06_pipeline: from the YAML-level configuration to the verdict: a
 // reference written in any position and any pattern form (alone, inside a
